@@ -42,7 +42,8 @@ CHECKS = {
             "Design: exhaustive TLC over every digraph on 3 vertices/weight set/source/pop order. Code: graphs built through the public API, "
             "every heap pop recorded through the verif hook must be a Pop step of the model (minimum-distance unvisited vertex), the returned "
             "maps must equal the model state and satisfy the declarative property; weights up to 30000 and multiples of 2^28 (traced in units); "
-            "re-search through a reversed view after the graph was changed.", "DESIGN.md C18"),
+            "re-search through a reversed view after the graph was changed; long sparse graphs (1100-1375 vertices, shortest paths of more than a "
+            "thousand edges) judged by the feasibility + tight-predecessor certificate of DijkstraSparse.tla.", "DESIGN.md C18"),
     "C19": ("TLA+ GraphADT (map objects + handles) model-checked exhaustively; TLC-generated and random histories replayed on real Graph "
             "values with a full dump after every operation, validated by GraphTrace",
             "Design: all histories up to the bound satisfy mirror / incident-edge / agreement / reverse-twice / copy-freshness. Code: after "
@@ -63,11 +64,13 @@ CHECKS = {
             "Seeded random pairs over concrete and interface target types; TLC checks value/nil/assignability/label of Convert's result and the "
             "agreement of success with the call twin on well-behaved converter sets.", "DESIGN.md C10"),
     "C11": ("Lifecycle histories (C11: at most one execution of a run-once function over a whole history) + Once.tla: every interleaving of the "
-            "check/exec/store protocol forced on the real code through gate hooks, adversarial schedules must be infeasible",
+            "check/exec/store protocol forced on the real code through gate hooks, adversarial schedules must be infeasible; TLAPS proof of the protocol "
+            "for unbounded goroutines",
             "Sequential: all histories up to the bound. Concurrent: TLC enumerates every schedule of G goroutines x uses; each is forced on the "
             "real callDirect with the verif hooks as blocking gates and the observed steps are validated against Once.tla; schedules only the "
-            "lock-free protocol allows must not be followable.", "DESIGN.md C11"),
-    "C12": ("Sharing.tla (access protocol, all interleavings, NoConflict) + real concurrent calls on shared objects under the Go race detector; "
+            "lock-free protocol allows must not be followable. Unbounded: OnceProof.tla (TLAPS, re-checked by tlapm on every run, action texts compared "
+            "with Once.tla) proves AtMostOnce / SameResult / MutualExclusion for any number of goroutines and uses.", "DESIGN.md C11"),
+    "C12": ("Sharing.tla (access protocol, all interleavings, NoConflict; TLAPS proof for unbounded goroutines) + real concurrent calls on shared objects under the Go race detector; "
             "every goroutine's call judged as a phase of one combined log by the Contract invariants",
             "Design: no conflicting accesses for every sharing configuration. Code: the race detector is the sensor (TLA+ cannot observe memory "
             "accesses); outcomes of concurrent calls are validated by TLC like sequential ones.", "DESIGN.md C12"),
@@ -118,7 +121,7 @@ def main():
         ],
         "checks": [],
         "not_applicable": [],
-        "known_findings": "known_findings.json (fixed: F1..F28 with the repairing commit; open: K1 for C07, reported as KNOWN-FINDING by check C07)",
+        "known_findings": "known_findings.json (fixed: F1..F32 with the repairing commit; open: K1 for C07 and K2 for C08, reported as KNOWN-FINDING by checks C07 / C08)",
         "notes": "All verdicts come from TLC evaluating TLA+ invariants, either on the model or on traces recorded from /repo's working tree. Exit 2 = infrastructure problem, never a verdict.",
     }
     for p in props:
